@@ -21,56 +21,62 @@
                              ABTI_ythread_suspend instead of the callback):
                              the resumer pushes u and the other stream jumps
                              into it while it still runs;
+     Variant = "TermInCb"    the suspension callback acts on a pending cancellation and goes on
+                             (= seeded C11-m7): BLOCKED is stored over TERMINATED;
      Variant = "NoCheck"     resume does not test the state: u is pushed while
                              RUNNING.                                           *)
 EXTENDS Integers, FiniteSets
 CONSTANTS Streams, Rounds, Variant
-VARIABLES st, ctxSaved, onStream, cbOn, pcU, pcS, pcR, pool, blocked, left, resumes, jumps, bad
-vars == <<st, ctxSaved, onStream, cbOn, pcU, pcS, pcR, pool, blocked, left, resumes, jumps, bad>>
+VARIABLES st, ctxSaved, onStream, cbOn, pcU, pcS, pcR, pool, blocked, left, resumes, jumps, bad, creq, dead
+vars == <<st, ctxSaved, onStream, cbOn, pcU, pcS, pcR, pool, blocked, left, resumes, jumps, bad, creq, dead>>
 First == CHOOSE s \in Streams : TRUE
 Init == /\ st = "RUNNING" /\ ctxSaved = FALSE /\ onStream = {First} /\ cbOn = 0 /\ pcU = "body"
         /\ pcS = [s \in Streams |-> "idle"] /\ pcR = "load" /\ pool = 0 /\ blocked = 0 /\ left = Rounds
-        /\ resumes = 0 /\ jumps = 1 /\ bad = FALSE
+        /\ resumes = 0 /\ jumps = 1 /\ bad = FALSE /\ creq = FALSE /\ dead = FALSE
 \* ---- the ULT (executed by the stream in onStream) and the callback (executed by cbOn)
 Suspend == /\ pcU = "body" /\ onStream # {} /\ left > 0 /\ left' = left - 1
            /\ IF Variant = "StoreEarly" THEN pcU' = "early_inc" ELSE pcU' = "save"
-           /\ UNCHANGED <<st, ctxSaved, onStream, cbOn, pcS, pcR, pool, blocked, resumes, jumps, bad>>
+           /\ UNCHANGED <<st, ctxSaved, onStream, cbOn, pcS, pcR, pool, blocked, resumes, jumps, bad, creq, dead>>
 EarlyInc == /\ pcU = "early_inc" /\ blocked' = blocked + 1 /\ pcU' = "early_store"
-            /\ UNCHANGED <<st, ctxSaved, onStream, cbOn, pcS, pcR, pool, left, resumes, jumps, bad>>
+            /\ UNCHANGED <<st, ctxSaved, onStream, cbOn, pcS, pcR, pool, left, resumes, jumps, bad, creq, dead>>
 EarlyStore == /\ pcU = "early_store" /\ st' = "BLOCKED" /\ pcU' = "save"
-              /\ UNCHANGED <<ctxSaved, onStream, cbOn, pcS, pcR, pool, blocked, left, resumes, jumps, bad>>
+              /\ UNCHANGED <<ctxSaved, onStream, cbOn, pcS, pcR, pool, blocked, left, resumes, jumps, bad, creq, dead>>
 Save == /\ pcU = "save" /\ \E s \in onStream : cbOn' = s
         /\ ctxSaved' = TRUE /\ onStream' = {} /\ pcU' = IF Variant = "StoreEarly" THEN "cb_end" ELSE "cb_inc"
-        /\ UNCHANGED <<st, pcS, pcR, pool, blocked, left, resumes, jumps, bad>>
+        /\ UNCHANGED <<st, pcS, pcR, pool, blocked, left, resumes, jumps, bad, creq, dead>>
 CbInc == /\ pcU = "cb_inc" /\ blocked' = blocked + 1 /\ pcU' = "cb_store"
-         /\ UNCHANGED <<st, ctxSaved, onStream, cbOn, pcS, pcR, pool, left, resumes, jumps, bad>>
+         /\ IF Variant = "TermInCb" /\ creq THEN st' = "TERMINATED" /\ dead' = TRUE ELSE UNCHANGED <<st, dead>>
+         /\ UNCHANGED <<ctxSaved, onStream, cbOn, pcS, pcR, pool, left, resumes, jumps, bad, creq>>
 CbStore == /\ pcU = "cb_store" /\ st' = "BLOCKED" /\ pcU' = "parked" /\ cbOn' = 0
-           /\ UNCHANGED <<ctxSaved, onStream, pcS, pcR, pool, blocked, left, resumes, jumps, bad>>
+           /\ UNCHANGED <<ctxSaved, onStream, pcS, pcR, pool, blocked, left, resumes, jumps, bad, creq, dead>>
 CbEnd == /\ pcU = "cb_end" /\ pcU' = "parked" /\ cbOn' = 0
-         /\ UNCHANGED <<st, ctxSaved, onStream, pcS, pcR, pool, blocked, left, resumes, jumps, bad>>
+         /\ UNCHANGED <<st, ctxSaved, onStream, pcS, pcR, pool, blocked, left, resumes, jumps, bad, creq, dead>>
 Finish == /\ pcU = "body" /\ onStream # {} /\ left = 0 /\ pcU' = "finished" /\ onStream' = {} /\ st' = "TERMINATED"
-          /\ UNCHANGED <<ctxSaved, cbOn, pcS, pcR, pool, blocked, left, resumes, jumps, bad>>
+          /\ UNCHANGED <<ctxSaved, cbOn, pcS, pcR, pool, blocked, left, resumes, jumps, bad, creq, dead>>
+\* ---- a canceller (only in the TermInCb configuration): ABT_thread_cancel sets the request bit
+Cancel == /\ Variant = "TermInCb" /\ ~creq /\ st # "TERMINATED" /\ creq' = TRUE
+          /\ UNCHANGED <<st, ctxSaved, onStream, cbOn, pcU, pcS, pcR, pool, blocked, left, resumes, jumps, bad, dead>>
 \* ---- the resumer (a ULT of another stream or an external thread); it retries after ABT_ERR_THREAD
 RLoad == /\ pcR = "load" /\ resumes < Rounds
          /\ pcR' = IF st = "BLOCKED" \/ Variant = "NoCheck" THEN "ready" ELSE "load"
-         /\ UNCHANGED <<st, ctxSaved, onStream, cbOn, pcU, pcS, pool, blocked, left, resumes, jumps, bad>>
+         /\ UNCHANGED <<st, ctxSaved, onStream, cbOn, pcU, pcS, pool, blocked, left, resumes, jumps, bad, creq, dead>>
 RReady == /\ pcR = "ready" /\ st' = "READY" /\ pcR' = "push" /\ resumes' = resumes + 1
-          /\ UNCHANGED <<ctxSaved, onStream, cbOn, pcU, pcS, pool, blocked, left, jumps, bad>>
+          /\ UNCHANGED <<ctxSaved, onStream, cbOn, pcU, pcS, pool, blocked, left, jumps, bad, creq, dead>>
 RPush == /\ pcR = "push" /\ pool' = pool + 1 /\ pcR' = "dec"
-         /\ UNCHANGED <<st, ctxSaved, onStream, cbOn, pcU, pcS, blocked, left, resumes, jumps, bad>>
+         /\ UNCHANGED <<st, ctxSaved, onStream, cbOn, pcU, pcS, blocked, left, resumes, jumps, bad, creq, dead>>
 RDec == /\ pcR = "dec" /\ blocked' = blocked - 1 /\ pcR' = "load"
-        /\ UNCHANGED <<st, ctxSaved, onStream, cbOn, pcU, pcS, pool, left, resumes, jumps, bad>>
+        /\ UNCHANGED <<st, ctxSaved, onStream, cbOn, pcU, pcS, pool, left, resumes, jumps, bad, creq, dead>>
 \* ---- the schedulers
 Idle(s) == s \notin onStream /\ cbOn # s /\ pcS[s] = "idle"
 Pop(s) == /\ Idle(s) /\ pool > 0 /\ pool' = pool - 1 /\ pcS' = [pcS EXCEPT ![s] = "run"]
-          /\ UNCHANGED <<st, ctxSaved, onStream, cbOn, pcU, pcR, blocked, left, resumes, jumps, bad>>
+          /\ UNCHANGED <<st, ctxSaved, onStream, cbOn, pcU, pcR, blocked, left, resumes, jumps, bad, creq, dead>>
 SetRunning(s) == /\ pcS[s] = "run" /\ st' = "RUNNING" /\ pcS' = [pcS EXCEPT ![s] = "jump"]
-                 /\ UNCHANGED <<ctxSaved, onStream, cbOn, pcU, pcR, pool, blocked, left, resumes, jumps, bad>>
+                 /\ UNCHANGED <<ctxSaved, onStream, cbOn, pcU, pcR, pool, blocked, left, resumes, jumps, bad, creq, dead>>
 Jump(s) == /\ pcS[s] = "jump" /\ pcS' = [pcS EXCEPT ![s] = "idle"]
            /\ bad' = (bad \/ ~ctxSaved \/ onStream # {}) /\ ctxSaved' = FALSE /\ onStream' = onStream \cup {s}
            /\ pcU' = "body" /\ jumps' = jumps + 1
-           /\ UNCHANGED <<st, cbOn, pcR, pool, blocked, left, resumes>>
-Next == \/ Suspend \/ EarlyInc \/ EarlyStore \/ Save \/ CbInc \/ CbStore \/ CbEnd \/ Finish
+           /\ UNCHANGED <<st, cbOn, pcR, pool, blocked, left, resumes, creq, dead>>
+Next == \/ Cancel \/ Suspend \/ EarlyInc \/ EarlyStore \/ Save \/ CbInc \/ CbStore \/ CbEnd \/ Finish
         \/ RLoad \/ RReady \/ RPush \/ RDec
         \/ \E s \in Streams : Pop(s) \/ SetRunning(s) \/ Jump(s)
 Spec == Init /\ [][Next]_vars /\ WF_vars(Next) /\ WF_vars(RLoad /\ pcR' = "ready")
@@ -79,5 +85,7 @@ Spec == Init /\ [][Next]_vars /\ WF_vars(Next) /\ WF_vars(RLoad /\ pcR' = "ready
 OneStream == Cardinality(onStream) <= 1 /\ ~bad
 OncePerResume == pool <= 1 /\ jumps <= 1 + resumes /\ resumes <= Rounds - left
 BlockedCount == blocked >= 0 /\ (pcU = "finished" /\ pcR = "load" => blocked = 0 /\ pool = 0)
+\* TERMINATED is final: a terminated unit never shows another state
+TerminatedFinal == dead => st = "TERMINATED"
 Done == <>(pcU = "finished" /\ resumes = Rounds /\ jumps = Rounds + 1)
 =============================================================================
